@@ -679,6 +679,11 @@ func hasInt(l []int, x int) bool {
 // RRset served.
 func (o *oracle) probe(s *sim, sp *runSpec, answered, ad bool) string {
 	live := s.liveRefs()
+	for _, k := range live {
+		if k.owner != 0 {
+			return "-" // a foreign-owner DNSKEY in the trust set: not judged (see notes)
+		}
+	}
 	signedByLive := func(signers []kref) bool {
 		for _, sg := range signers {
 			for _, t := range live {
